@@ -112,7 +112,9 @@ def _plan_conversion(start: Unit, end: Unit) -> Plan:
     start_factors = _splat(start)
     end_factors = _splat(end)
 
-    direct_path = _find_path(start, end)
+    # the magnitude arrives unprefixed and the target's prefix is divided out last, so a
+    # path between the units themselves (with any zero offsets on it) is a direct one
+    direct_path = _find_path(start.quantify().unit, unprefixed.unit)
     if direct_path:
         return [(1, direct_path, 1)] + _inline_paths(unprefix)
 
